@@ -1,4 +1,5 @@
 import TemprenModel.Props.C05
+import TemprenModel.Model.Report
 /-!
 # C05 — "… so the final tree equals the dry run's report applied to the initial tree"
 
@@ -18,13 +19,7 @@ REAL run leaves behind iff it exists after applying, in order, the renames the D
 namespace Tempren
 namespace C05
 
-/-- one reported rename applied to an existence map -/
-def applyMove (occ : APath → Bool) (s d : APath) : APath → Bool :=
-  fun x => if x = d then true else if x = s then false else occ x
-
-/-- a report (list of events, oldest first) applied to the initial tree -/
-def applyReport (base : FS) (evs : List Event) : APath → Bool :=
-  evs.foldl (fun occ e => applyMove occ (absKey e.dir e.src) (absKey e.dir e.dst)) (lexists base)
+/- `applyMove`, `applyReport`: Model/Report.lean (the driver runs them against real reports) -/
 
 structure SpecState where
   base : FS
